@@ -1,9 +1,21 @@
 """C36 A forked process never uses its parent's database connection.
 
 Process explorer. Every history is executed in a process P of its own (forked from a thread-free pool
-worker): P binds a Database through one of the four pool implementations, reaches an enumerated *fork
-point*, forks a child C (optionally C forks a grandchild G), and all processes then run read and write
-sessions in an order fixed by pipes. C and G report through a pipe as JSON and leave with os._exit.
+worker): P binds one or two Database objects through one of the four pool implementations, reaches an
+enumerated *fork point*, forks a child C, C may fork a grandchild G (thorough: G a great-grandchild GG), and
+all processes run read and write sessions in an order fixed by pipes. Forked processes report through a
+pipe as JSON and leave with os._exit. A history is the product of
+  pool x fork point x forking thread x how the other thread ends x order of the sessions of P and C
+  x first sessions of C (rw / wr) x fork depth (1, 2; thorough 3)
+  x what a process that forks again did BEFORE it forked ('sessions' = read + write, 'nothing' = the
+    intermediate process of a double fork / daemonisation opens no session at all, 'r', 'w'); after its own
+    child has finished, such a process runs the sessions it has not run yet (so it is judged too)
+  x number of bound Database objects (1, 2: two pools, each on a file of its own, both hold whatever the
+    fork point leaves pooled; every session step is run on both; P uses them in order a,b, the forked
+    processes in order a,b or b,a).
+cases() lists the sub-product each tier takes (quick: depth 2 with 'sessions' and 'nothing'; two databases
+at depth 1 on the fork points that leave something pooled; thorough: everything above, depth 3 and two
+databases at depth 2 with the main thread forking).
 
 Pools (code under test is /repo's, unmodified):
   sqlite  SQLitePool on a real file database, DB-API seam VfConnection (records the creator pid)
@@ -14,16 +26,21 @@ The fakes (vf/props/_c36_fake.py) are shells around a sqlite3 file that only rec
 pg / base / oracle are model-based in that sense, the pool code itself runs for real.
 
 Fork points: before bind; idle pooled connection left by bind; idle pooled connection after a session;
-while ANOTHER thread holds an open read session / an open write transaction (the child contains only the
-forking thread); after db.disconnect(). A fork from INSIDE an open session of the forking thread is
-excluded: the child would still be inside the parent's session, which the property does not cover.
+while ANOTHER thread holds an open read session / an open write transaction over all databases (the child
+contains only the forking thread); after db.disconnect(). A fork from INSIDE an open session of the
+forking thread is excluded: the child would still be inside the parent's session, which the property does
+not cover.
 
-Oracle: (1) no driver call in C (G) on a connection / session pool created by another process - every
-call is tagged (pid, id(con), creator pid); (2) P's sessions keep working; (3) every read session sees
-exactly the rows committed before it by any process; (4) the first write session of C does not block -
-it runs under SIGALRM; "blocked" = the thread stands at the same frames at consecutive alarms (3 s apart) while
-waiting for a provider lock that is locked although no other thread exists in the process (nobody can ever
-release it; independent of timing), or stands still for four alarms.
+Oracle: (1) no driver call in any forked process on a connection / session pool created by another process
+- every call is tagged (pid, id(con), creator pid); (2) P's sessions keep working; (3) every read session
+sees exactly the rows committed before it, per database, by any process (global order of the sessions: a
+counter in a shared anonymous mapping; the processes take turns); (4) no write session of a forked process
+blocks - it runs under SIGALRM; "blocked" = the thread stands at the same frames at consecutive alarms (3 s
+apart) while waiting for a provider lock that is locked although no other thread exists in the process
+(nobody can ever release it; independent of timing), or stands still for four alarms. A process whose write
+blocked writes no more and forks no more.
+Vacuity guards: double-fork histories in which the last process really set an inherited connection aside;
+two-database histories in which the child set the inherited connections of both pools aside.
 """
 import os, sys, json, time, mmap, struct, signal, select, threading, traceback, sqlite3
 from vf import core
@@ -579,7 +596,7 @@ def replay(ctx, case):
     from vf import stubs
     import pony.orm
     stubs.install_all()
-    c = case['case']
+    c = dict(dict(mid='sessions', dbs=1, use='a'), **case['case'])      # replays recorded before these dimensions existed
     rep = run_case(c)
     found, facts = judge(c, rep)
     print('history %s' % case_name(c))
